@@ -175,6 +175,19 @@ def check_pair(a, b, R, rng):
         R.count('law:hash')
         if hash(A) != hash(B):
             R.violation('cat:eq-hash', f'equal values hash differently: {wit}', wit)
+        # reading a value (its text, its arity, its arguments, its features) between storing and looking up changes nothing
+        held = {A: 1}
+        for v in (A, B):
+            try:
+                str(v), repr(v), v.nargs, v.arg(0), v.arg(1), v.is_functor, v.is_atomic, v.clear_features('X')
+                if v.is_functor:
+                    v.left, v.right, v.slash, v.is_function_application
+            except Exception:
+                pass
+        R.count('law:lookup-after-observation')
+        if held.get(B) != 1 or held.get(A) != 1 or hash(A) != hash(B) or not (A == B):
+            R.violation('cat:eq-hash', f'a dictionary keyed by a value no longer finds it (or an equal one) after the values were '
+                        f'only read: {wit}', dict(wit, observed=True))
         R.count('law:dict-lookup')
         d, s = {A: 1}, {A}
         if d.get(B) != 1 or B not in s or (A, A) not in {(B, B)}:
@@ -211,6 +224,31 @@ def run(spec, R):
         for b in (muts if len(muts) <= 12 else rng.sample(muts, 12)):
             check_pair(a, b, R, rng)
         check_pair(a, rng.choice(allv), R, rng)
+        # the same value as the reader builds it from some spelling with redundant brackets and blanks
+        if i % 2 == 0:
+            from depccg.cat import Category
+            spelled = refcat.decorate(a, rng)
+            canon = refcat.ref_print(a)
+            try:
+                P = Category.parse(spelled)
+            except Exception:
+                P = None                      # which texts are readable is C05's business (punctuation atoms take no feature)
+                R.count('law:parsed-value:text-not-readable')
+            try:
+                if P is None:
+                    raise StopIteration
+                R.count('law:parsed-value')
+                if not (P == A) or not (A == P) or hash(P) != hash(A) or {P: 1}.get(A) != 1:
+                    R.violation('cat:eq-hash', f'the value read from {spelled!r} is not equal to / does not hash like the built one',
+                                {'a': canon, 'text': spelled})
+                # contract on ==: a string compares equal exactly when it is the canonical text, however the value was made
+                if not (P == canon) or (spelled != canon and (P == spelled)):
+                    R.violation('cat:string-eq', f'value read from {spelled!r}: == {canon!r} is {P == canon}, == {spelled!r} is {P == spelled}',
+                                {'a': canon, 'text': spelled})
+            except StopIteration:
+                pass
+            except Exception as e:
+                R.violation('cat:string-eq', f'comparing the value read from {spelled!r} raised {e!r}', {'a': canon, 'text': spelled})
         # strings
         for s in near_miss_strings(a, rng)[:6 if i % 3 else 10]:
             R.case((a, 'str', s), True)
